@@ -145,6 +145,11 @@ pub mod gen {
             cmp(Lte(Comparable::Function(TestFunction::Count(arg_rel(vec![Segment::Selector(Selector::Wildcard)]))), lit_f(2.0))), // count(@.*) <= 2.0
             cmp(Eq(Comparable::Function(TestFunction::Value(arg_rel(vec![name("a"), Segment::Selector(Selector::Filter(cmp(Gt(cur(vec![]), lit_i(5)))))]))), cur(vec![sn("zz")]))), // value(@.a[?@ > 5]) == @.zz
             cmp(Eq(Comparable::Function(TestFunction::Value(arg_rel(vec![name("a"), Segment::Selector(Selector::Slice(Some(0), Some(0), None))]))), cur(vec![sn("b")]))),           // value(@.a[0:0]) == @.b
+            cmp(Eq(Comparable::Function(TestFunction::Count(arg_rel(vec![Segment::Selectors(vec![Selector::Name("a".into()), Selector::Name("a".into())])]))), lit_i(2))),            // count(@['a','a']) == 2  (a node selected twice counts twice)
+            cmp(Eq(Comparable::Function(TestFunction::Count(arg_rel(vec![Segment::Selectors(vec![Selector::Index(0), Selector::Index(0)])]))), lit_i(2))),                            // count(@[0,0]) == 2
+            cmp(Gte(Comparable::Function(TestFunction::Count(arg_rel(vec![Segment::Selectors(vec![Selector::Wildcard, Selector::Index(-1)])]))), lit_i(3))),                          // count(@[*,-1]) >= 3
+            cmp(Eq(cur(vec![sn("'a\\'b'")]), lit_i(1))),                                                                                                                              // @['a\'b'] == 1  (escaped quote)
+            t(rel(vec![name("\"'q'\"")])),                                                                                                                                           // @["'q'"]  (a member whose name is enclosed in quotes)
         ]
     }
     /// logical formulas over atoms: every atom, and !, &&, || combinations with <= 3 atoms (seeded sample of the pairs/triples)
@@ -156,7 +161,10 @@ pub mod gen {
         let pick = |rng: &mut Rng| a[rng.below(a.len())].clone();
         for _ in 0..n_combo {
             let (x, y, z) = (pick(rng), pick(rng), pick(rng));
-            match rng.below(6) {
+            match rng.below(9) {
+                6 => out.push(Filter::And(vec![x, Filter::Or(vec![y, z])])),          // AST only: an Or directly under an And (the parser always wraps it)
+                7 => out.push(Filter::And(vec![Filter::And(vec![x, y]), z])),
+                8 => out.push(Filter::Or(vec![Filter::Or(vec![x, y]), z])),
                 0 => out.push(Filter::Or(vec![x, y])),
                 1 => out.push(Filter::And(vec![x, y])),
                 2 => out.push(Filter::Atom(FilterAtom::Filter { expr: Box::new(Filter::Or(vec![x, y])), not: true })),
@@ -177,6 +185,7 @@ pub mod gen {
         let big = 9007199254740991i64;
         vec![
             Selector::Name("a".into()), Selector::Name("b".into()), Selector::Name("'a'".into()),
+            Selector::Name("\"'q'\"".into()), Selector::Name("'a\\'b'".into()),
             Selector::Wildcard,
             Selector::Index(0), Selector::Index(1), Selector::Index(-1), Selector::Index(-2), Selector::Index(big), Selector::Index(-big),
             Selector::Slice(None, None, None), Selector::Slice(Some(1), None, None), Selector::Slice(None, Some(1), None),
